@@ -45,8 +45,10 @@ struct CV { std::string key, what; };
 static std::vector<long> numbers(const std::string& s) { std::vector<long> v; size_t i = 0; while (i < s.size()) { if (isdigit((unsigned char)s[i])) { long x = 0; while (i < s.size() && isdigit((unsigned char)s[i])) x = x * 10 + (s[i++] - '0'); v.push_back(x); } else i++; } return v; }
 
 static void check_itemcount(const std::string& path, const RFile& rf, const std::string& tag, Result& R, std::vector<CV>& out) {
-    for (int opt = 0; opt < 4; opt++) {
-        std::vector<std::string> args; if (opt & 1) args.push_back("-b"); if (opt & 2) args.push_back("-p"); args.push_back(path);
+    // option spellings: separate, combined, either order, after the file name (getopt permutes)
+    static const struct { int opt; std::vector<std::string> pre, post; } SP[] = {{0, {}, {}}, {1, {"-b"}, {}}, {2, {"-p"}, {}}, {3, {"-b", "-p"}, {}}, {3, {"-p", "-b"}, {}}, {3, {"-bp"}, {}}, {3, {"-pb"}, {}}, {1, {}, {"-b"}}, {3, {"-p"}, {"-b"}}};
+    for (auto& sp : SP) { int opt = sp.opt;
+        std::vector<std::string> args = sp.pre; args.push_back(path); args.insert(args.end(), sp.post.begin(), sp.post.end());
         Proc p = run_tool(g_tool["cdns-itemcount"], args, tag + "ic" + std::to_string(opt)); R.count("tool_runs");
         std::string ab = abnormal(p); if (!ab.empty()) { out.push_back({"itemcount-abnormal|" + ab, "cdns-itemcount ended abnormally: " + p.err.substr(0, 300)}); continue; }
         std::vector<long> got = numbers(p.out), want;
